@@ -116,6 +116,17 @@ def vstr(s):
 VNONE = V("ref", NONE)
 
 
+class Marker:
+    """Static payload that is not a Python tuple of values: enumerate(x), a generator expression, a closure."""
+
+    def __init__(self, name, payload):
+        self.name = name
+        self.payload = payload
+
+    def __repr__(self):
+        return "Marker(%s)" % self.name
+
+
 class Unsupported(Exception):
     """A construct outside the executor's subset: the unit is undecided (exit 2), never skipped."""
 
@@ -163,6 +174,8 @@ class State:
         self.ghost = {}
         self.path = []  # human-readable branch decisions
         self.handlers = []  # stack of active try contexts is kept in the executor, not here
+        self.allocs = {}  # id of an allocation constant -> True (distinct from each other and from every input)
+        self.olds = set()  # ids of input constants (objects that existed before the unit started)
 
     def copy(self):
         s = State.__new__(State)
@@ -175,7 +188,25 @@ class State:
         s.ghost = dict(self.ghost)
         s.path = list(self.path)
         s.handlers = list(self.handlers)
+        s.allocs = dict(self.allocs)
+        s.olds = set(self.olds)
         return s
+
+    def _distinct(self, a, b):
+        """Syntactic distinctness of two refs: different numerals, two allocations, or an allocation and an input."""
+        if z3.is_int_value(a) and z3.is_int_value(b):
+            return a.as_long() != b.as_long()
+        ia, ib = a.get_id(), b.get_id()
+        if ia == ib:
+            return False
+        fa, fb = ia in self.allocs, ib in self.allocs
+        if fa and fb:
+            return True
+        if fa and (ib in self.olds or (z3.is_int_value(b) and b.as_long() <= 2)):
+            return True
+        if fb and (ia in self.olds or (z3.is_int_value(a) and a.as_long() <= 2)):
+            return True
+        return False
 
     # heap ---------------------------------------------------------------------------------------
     def field(self, name):
@@ -184,7 +215,18 @@ class State:
         return self.heap[name]
 
     def get(self, name, ref):
-        return z3.Select(self.field(name), ref)
+        """Read a field; stores to syntactically distinct objects are skipped so that terms stay in the shape the
+        hypotheses about input objects were stated in (helps E-matching; semantically the identity)."""
+        arr = self.field(name)
+        while z3.is_app_of(arr, z3.Z3_OP_STORE):
+            a, idx, v = arr.children()
+            if idx.eq(ref):
+                return v
+            if self._distinct(idx, ref):
+                arr = a
+            else:
+                break
+        return z3.Select(arr, ref)
 
     def put(self, name, ref, val):
         self.heap[name] = z3.Store(self.field(name), ref, val)
@@ -198,4 +240,5 @@ class State:
         r = fresh(prefix)
         self.assume(r == self.ctr, TY(r) == ty)
         self.ctr = r + 1
+        self.allocs[r.get_id()] = True
         return r
